@@ -294,7 +294,7 @@ theorem iteScalar_obl {c1 c2 : LinComb} (hc : lcEq c1 c2) {t1 t2 f1 f2 : Val} (h
   refine Obl.bind (coerceF_obl ht hf) (fun g1 g2 hg => ?_)
   refine Obl.bind (subV_obl ht hg) (fun d1 d2 hd => ?_)
   refine Obl.bind (mulLV_obl hc hd) (fun p1 p2 hp => ?_)
-  exact addV_obl hg hp
+  exact Obl.bind (addV_obl hg hp) (fun r1 r2 hr => iteTag_obl ht hg hr)
 
 theorem freshS_obl {v1 v2 : Val} (hv : ValRel v1 v2) (n : Nat) : Obl (PairNRel SRel) (freshS v1 n) (freshS v2 n) := by
   unfold freshS
